@@ -23,6 +23,11 @@
 (* ImplRefines: lopdf-shaped writer + ISO reader and ISO writer + lopdf-shaped reader agree with the  *)
 (* declarative layer EXCEPT exactly in the cases named by the three switches.                        *)
 (*                                                                                                *)
+(* Anti-vacuity: TLC's -coverage needs > 8 GB of heap on this module (it keeps cost counters for every     *)
+(* evaluation of the recursive term constructors), so the check derives "every action fired" from the     *)
+(* emission instead: a TERMS line is printed in a Configure successor; a CASE line needs WriteDict and     *)
+(* Attempt; items = 9 needs nine DecryptItem steps and Finish; items = 0 with no expectation needs Reject.  *)
+(*                                                                                                *)
 (* Emission: a TERMS line per configuration (the term DAG of every observable, with named inputs      *)
 (* and refs) and a CASE line per (configuration, passwords, attempted password) with the verdicts     *)
 (* of the declarative layer.                                                                        *)
@@ -292,5 +297,6 @@ EmitInv ==
           PrintT(<<"CASE", ToJson([cfg |-> cfg, absent |-> absent,
                                    user |-> SegsJson(pws.user), owner |-> SegsJson(pws.owner), try |-> SegsJson(try),
                                    expUser |-> ShouldUser, expOwner |-> ShouldOwner,
+                                   items |-> Len(ItemSeq) - Len(todo),      \* DecryptItem steps of this behaviour
                                    model |-> [h12 |-> DevH12Here, ownerAbsent |-> DevOwnerAbsentHere]])>>)
 =============================================================================
